@@ -365,7 +365,16 @@ func init() {
 				}
 				return "ok " + hxList(bs, ",")
 			}},
-			{Name: "c19.getflags", Impl: func(a []string) string {
+			{Name: "c19.getflags",
+				// the specification looks at the list the implementation returned: reserved bits may or may not be in it
+				ReadBack: func(a []string, out string) (m, s []string) {
+					f := strings.Fields(out)
+					if len(f) == 2 && f[0] == "ok" {
+						return nil, []string{f[1]}
+					}
+					return nil, []string{"none"}
+				},
+				Impl: func(a []string) string {
 				l := fam(a[0]).getflags(c19U(a[1]))
 				if len(l) == 0 {
 					return "ok ."
@@ -453,7 +462,7 @@ func genC19(r *Rng, tier string) []Case {
 					cs = append(cs, Case{Op: "c19.names", MArgs: []string{f.ID, ws}, Tag: f.ID + ".names." + tag})
 				}
 				if f.GetFlags {
-					cs = append(cs, Case{Op: "c19.getflags", MArgs: []string{f.ID, ws}, Tag: f.ID + ".getflags." + tag})
+					cs = append(cs, Case{Op: "c19.getflags", MArgs: []string{f.ID, ws}, SArgs: []string{f.ID, ws}, Tag: f.ID + ".getflags." + tag})
 				}
 				cs = append(cs, Case{Op: "c19.set", MArgs: []string{f.ID, ws}, SArgs: []string{f.ID, ws}, NoM: true, Tag: f.ID + ".set." + tag})
 			}
